@@ -19,7 +19,9 @@ def report(c, cond, label, sig=None, kind="ssa"):
             return None
     ok = c.prove(cond, label, info={"sig": sig or label, "what": label})
     if ok is False:
-        c.failures[-1]["replay"] = {"kind": kind}
+        from .common import model_env
+        sy = {k: v for k, v in getattr(c, "scale_syms", {}).items()}
+        c.failures[-1]["replay"] = {"kind": kind, "values": model_env(c, c.failures[-1]["model"], sy)}
     return ok
 
 
@@ -158,6 +160,7 @@ def delay_step(interp, c, case, facets=None, rules=False):
                     *[px[i] == x_eff[i] for i in range(S)]),
            "[rules] rules and propensities see the current state, time and rule_step (delay loop)", kind=K)
     Lam = _sum(a)
+    c.scale_syms = {"Lam": Lam, "dt": dt}          # the counterexample's own scale, for the replay battery
     draws = list(c.draws)
     if Lam == 0:
         fired, prop, rs_new = False, grid[ci], 1
@@ -349,6 +352,7 @@ def volume_step(interp, c, case, vol_factory=None, facets=None, rules=False, ali
                     *[px[i] == x_eff[i] for i in range(S)]),
            "[rules] volume rules and volume-scaled propensities see the current state, time and CURRENT volume", kind=K)
     Lam = _sum(a)
+    c.scale_syms = {"Lam": Lam, "dt": dt}          # the counterexample's own scale, for the replay battery
     draws = list(c.draws)
     if Lam == 0:
         fired, prop, rs_new, move = False, grid[ci], 1, False
@@ -535,6 +539,7 @@ def delay_volume_step(interp, c, case, facets=None):
            "[rules] volume rules see the current state, time, rule_step and volume; propensities see the rule-updated state "
            "(delay+volume loop)", kind=K)
     Lam = _sum(a)
+    c.scale_syms = {"Lam": Lam, "dt": dt}          # the counterexample's own scale, for the replay battery
     draws = list(c.draws)
     if Lam == 0:
         prop = grid[ci]
